@@ -162,3 +162,12 @@ open NitroVerif
     key-only comparator the re-search lands on the oldest version of the key (witness C01_unfixed_duplicate). -/
 theorem iteratorStoreCmp_ok : Gen.iteratorStoreCmp = Gen.CmpKind.ins := rfl
 end NitroVerif.MvccGenExtra
+
+namespace NitroVerif.MvccGenExtra
+open NitroVerif
+/-- nitro.go Visitor: the dispatcher sends exactly as many shard indexes as the work channel can hold, so it never
+    blocks even when every worker has stopped receiving after a callback error (termination half of C10; the number
+    of shards is `len(pivotItems) - 1`, which `C10_visitor_partition` bounds by the number of pivots plus one). -/
+theorem visitor_channel_holds_every_shard : Gen.visitorChanCap = Gen.visitorDispatchBound := rfl
+theorem visitorChanCap_ok : Gen.visitorChanCap = "len(pivotItems) - 1" := rfl
+end NitroVerif.MvccGenExtra
